@@ -149,7 +149,7 @@ ConnDone(c) ==
 
 (* ---- commands of a connected client ---- *)
 Subscribe(c) ==
-  /\ Env /\ rd[c] = "up" /\ st[c] = "connected" /\ sub[c] = "none" /\ spawned[c] = <<>>
+  /\ ~Pushes /\ Env /\ rd[c] = "up" /\ st[c] = "connected" /\ sub[c] = "none" /\ spawned[c] = <<>>
   /\ sub' = Upd(sub, c, "live")
   /\ out' = Upd(out, c, Append(out[c], F("subscribe", 0)))
   /\ cb' = Upd(cb, c, Append(cb[c], "subscribe"))
@@ -157,7 +157,7 @@ Subscribe(c) ==
   /\ UNCHANGED <<st, auth, hub, rd, tk, armed, spawned, cl, who, prev, shc, shut, cbdone, pushed>>
 
 Unsubscribe(c) ==
-  /\ Env /\ rd[c] = "up" /\ st[c] = "connected" /\ sub[c] = "live" /\ spawned[c] = <<>>
+  /\ ~Pushes /\ Env /\ rd[c] = "up" /\ st[c] = "connected" /\ sub[c] = "live" /\ spawned[c] = <<>>
   /\ sub' = Upd(sub, c, "none")
   /\ out' = Upd(out, c, Append(out[c], F("unsubscribe", 0)))
   /\ cb' = Upd(cb, c, Append(cb[c], "unsubscribe"))
@@ -250,13 +250,16 @@ ShutDone ==
   /\ step' = [act |-> "ShutDone"]
   /\ UNCHANGED <<st, auth, hub, rd, tk, armed, sub, spawned, cl, who, prev, shc, pushed, nenv, out, cb>>
 
-(* ---- C11: something is sent to the connection's user while the connect command is parked after addClient ---- *)
-Push(c) ==
+(* ---- C11: something is sent to the connection while its connect command is still under way ----
+   kind "send": Client.Send on the client found through Hub().Connections(); kind "pub": a publication without
+   history on the channel of the connect-time server-side subscription (its hub entry exists from the moment the
+   reader is inside Broker.Subscribe).  The intended behaviour: nothing overtakes the connect reply. *)
+Push(c, kind) ==
   /\ Pushes /\ Env /\ hub[c] /\ st[c] # "closed"
+  /\ kind = "pub" => (SS /\ c = 1 /\ (rd[c] = "ss" \/ sub[c] = "live"))
   /\ pushed' = Upd(pushed, c, pushed[c] + 1)
-  \* the intended behaviour: a push never overtakes the connect reply - it is written after it (or never)
   /\ out' = IF rd[c] \in {"cn", "up"} THEN Upd(out, c, Append(out[c], F("push", pushed[c] + 1))) ELSE out
-  /\ step' = [act |-> "Push", c |-> c, n |-> pushed[c] + 1]
+  /\ step' = [act |-> "Push", c |-> c, kind |-> kind, n |-> pushed[c] + 1, window |-> rd[c] \notin {"cn", "up"}]
   /\ UNCHANGED <<st, auth, hub, rd, tk, armed, sub, spawned, cl, who, prev, shc, shut, cbdone, cb>>
 
 Next ==
@@ -264,7 +267,8 @@ Next ==
     THEN \E c \in Conns : CloseStart(c)
     ELSE \/ \E c \in Conns : NewConn(c) \/ ConnBegin(c) \/ ConnAuth(c) \/ ConnReply(c) \/ ConnDone(c)
                              \/ Subscribe(c) \/ Unsubscribe(c) \/ DupConnect(c) \/ TickBegin(c) \/ TickEnd(c)
-                             \/ Disconnect(c) \/ TransportClose(c) \/ CloseStart(c) \/ CloseXmit(c) \/ Push(c)
+                             \/ Disconnect(c) \/ TransportClose(c) \/ CloseStart(c) \/ CloseXmit(c)
+                             \/ Push(c, "send") \/ Push(c, "pub")
          \/ ShutBegin \/ ShutDone
 
 Spec == Init /\ [][Next]_vars
